@@ -17,6 +17,8 @@ import typing as t
 
 VERIF = os.path.dirname(os.path.dirname(os.path.abspath(__file__)))
 REPO = os.environ.get("VERIF_REPO", "/repo")
+if REPO not in sys.path:
+    sys.path.insert(0, REPO)  # `import sqlframe` must resolve to the tree under test, before the editable install
 LEAN_DIR = os.path.join(VERIF, "lean")
 GEN_DIR = os.path.join(LEAN_DIR, "SqlframeModel", "Gen")
 ALLOWED_AXIOMS = {"propext", "Classical.choice", "Quot.sound"}
